@@ -38,3 +38,24 @@ Example C04_nonvacuous :
   obs (decode_asm (encode ([mkseq [97] 1 4; mkseq [66] 9 5], [101; 110; 100])) (repeat 0 14%nat) [1;2;3])
   = Some (14, [97;97;97;97;97;66;1;2;3;97;97;101;110;100]).
 Proof. vm_compute. reflexivity. Qed.
+
+(* ==== the portable decoder AS TRANSLATED from internal/lz4block/decode_other.go on this run (GenDecodeBody.v) ====
+   for every byte source, destination length and dictionary the translated decodeBlock returns exactly what the
+   block format defines: hasError iff the format rejects, otherwise the count and the bytes *)
+From LZ4V Require Import GoT GenDecodeBody GenDecodeBodyProofs GenDecodeBodyCorollaries.
+Theorem C04_portable_translated : forall src dst0 dict src_spare dst_spare dict_spare s0 fuel,
+  bytes src -> sized src dst0 dict -> (length src + 65 <= fuel)%nat ->
+  exists s', run_decodeBlock fuel dst0 dst_spare src src_spare dict dict_spare s0 = Ret s'
+    /\ match spec_decode src dict (len dst0) with
+       | Some out => decodeBlock_ret s' = len out /\ firstn (length out) (mem_decodeBlock_dst s') = out
+       | None => decodeBlock_ret s' = -2
+       end.
+Proof. exact C04_translated. Qed.
+Print Assumptions C04_portable_translated.
+Theorem C04_wellformed_portable_translated : forall p dict dst0 r src_spare dst_spare dict_spare s0 fuel,
+  wf_parse p -> expand_parse (rev dict) (len dst0) [] p = Some r ->
+  sized (encode p) dst0 dict -> (length (encode p) + 65 <= fuel)%nat ->
+  exists s', run_decodeBlock fuel dst0 dst_spare (encode p) src_spare dict dict_spare s0 = Ret s'
+    /\ decodeBlock_ret s' = len r /\ firstn (length r) (mem_decodeBlock_dst s') = rev r.
+Proof. exact C04_wellformed_translated. Qed.
+Print Assumptions C04_wellformed_portable_translated.
